@@ -414,10 +414,16 @@ class Folder:
                 if st.value is not None:
                     self._assign(st.target, self._eval(st.value, env, mod, ci), env)
             elif isinstance(st, ast.AugAssign):
-                if not isinstance(st.target, ast.Name):
+                if isinstance(st.target, ast.Name):
+                    cur = env[st.target.id]
+                    env[st.target.id] = self._binop(st.op, cur, self._eval(st.value, env, mod, ci))
+                elif self.allow_loops and isinstance(st.target, (ast.Attribute, ast.Subscript)):
+                    # x.a += v / x[k] += v : read through a load copy of the target, store through the ordinary assignment
+                    load = ast.parse(ast.unparse(st.target), mode='eval').body
+                    cur = self._eval(load, env, mod, ci)
+                    self._assign(st.target, self._binop(st.op, cur, self._eval(st.value, env, mod, ci)), env)
+                else:
                     raise Unsupported('augassign to non-local')
-                cur = env[st.target.id]
-                env[st.target.id] = self._binop(st.op, cur, self._eval(st.value, env, mod, ci))
             elif isinstance(st, ast.Expr) and isinstance(st.value, ast.Yield):
                 if '__yield__' not in env:
                     raise Unsupported('yield outside a folded generator')
